@@ -633,7 +633,9 @@ class _FuncAnalysis:
                     out |= self.apply(c, argv, kwv, n)
             return out
         # ---- generic containers / external
-        if isinstance(f, ast.Attribute):
+        is_module_func = isinstance(f, ast.Attribute) and isinstance(f.value, ast.Name) and \
+            f.value.id not in env and self.m.resolve_name(self.fi.module, f.value.id)[0] in ('module', 'ext')
+        if isinstance(f, ast.Attribute) and not is_module_func:
             if short in MUTATORS:
                 self.mutate(recv, n, f'.{short}() mutates its receiver')
                 allv = set()
